@@ -1,6 +1,7 @@
 package props
 
 import (
+	"go/types"
 	"fmt"
 	"go/token"
 	"sort"
@@ -67,6 +68,7 @@ func checkC18(c *fw.Ctx) {
 	checkF5(c)
 	checkF6(c)
 	checkF7(c)
+	checkF8(c)
 	// a v12 event must stay a v12 event: an eventV2 copy of it panics in RoomID() (shared with C03.9)
 	checkDerivedTypePreserved(c)
 }
@@ -587,4 +589,93 @@ func checkF7(c *fw.Ctx) {
 		c.Check(ok, rule, "checkVerifyKeys verifies a published key only after testing that it is 32 bytes long", c.P.Pos(call.Pos()), "", "the signature check of a remote server's published key is reached without the guard len(key) == 32: ed25519.Verify panics on a key of any other length, so a crafted key response crashes CheckKeys")
 	}
 	c.Min(rule+" key verification sites in checkVerifyKeys", n, 1)
+}
+
+// checkF8: PDU.StateKey() returns nil for events that are not state events. Every dereference of
+// its result must be dominated by a test that it is not nil for the same event (or follow a
+// call that established it). Events reached through remote-controlled references (auth_events,
+// state sets) can be of any kind.
+func checkF8(c *fw.Ctx) {
+	rule := "F8 state-key-deref"
+	n := 0
+	for _, fn := range c.P.SrcFuncs() {
+		for _, b := range fn.Blocks {
+			for _, ins := range b.Instrs {
+				u, ok := ins.(*ssa.UnOp)
+				if !ok || u.Op != token.MUL {
+					continue
+				}
+				call, _ := fw.CallOf(u.X)
+				if call == nil || !strings.HasSuffix(fw.CalleeName(call), ".StateKey") {
+					continue
+				}
+				if _, isPtr := u.X.Type().Underlying().(*types.Pointer); !isPtr {
+					continue
+				}
+				n++
+				ev := ""
+				if call.Common().IsInvoke() {
+					ev = fw.Sig(call.Common().Value)
+				} else if len(call.Common().Args) > 0 {
+					ev = fw.Sig(call.Common().Args[0])
+				}
+				guarded := ""
+				for _, f := range fw.DomConds(b) {
+					t := f.Sig
+					switch {
+					case !f.Taken && strings.HasSuffix(t, ".StateKey("+ev+") == nil)"):
+						guarded = "nil test"
+					case f.Taken && strings.HasSuffix(t, ".StateKey("+ev+") != nil)"):
+						guarded = "nil test"
+					case f.Taken && strings.Contains(t, ".StateKeyEquals("+ev+","):
+						guarded = "StateKeyEquals"
+					case f.Taken && strings.Contains(t, ".Membership("+ev+")#1 == nil)"), !f.Taken && strings.Contains(t, ".Membership("+ev+")#1 != nil)"):
+						guarded = "Membership() succeeded (it refuses events without a state key)"
+					}
+				}
+				// an earlier nil test in the same function that returns / continues on nil
+				if guarded == "" {
+					for _, iff := range fw.Ifs(fn) {
+						v, trueMeansNil, isNil := fw.NilCheck(iff.Cond)
+						if !isNil {
+							continue
+						}
+						cc, _ := fw.CallOf(v)
+						if cc == nil || !strings.HasSuffix(fw.CalleeName(cc), ".StateKey") {
+							continue
+						}
+						e2 := ""
+						if cc.Common().IsInvoke() {
+							e2 = fw.Sig(cc.Common().Value)
+						} else if len(cc.Common().Args) > 0 {
+							e2 = fw.Sig(cc.Common().Args[0])
+						}
+						if e2 != ev {
+							continue
+						}
+						nonNil := fw.IfEdge(iff.Block(), !trueMeansNil).To
+						if nonNil.Dominates(b) {
+							guarded = "nil test"
+						}
+					}
+				}
+				// frozen exemption (one symbol, read and confirmed): resolveAuthBlock only receives the
+				// blocks r.creates/powerLevels/joinRules/thirdPartyInvites/members, which are filled
+				// only by addConflicted after its own nil test (itself an obligation of this rule)
+				if guarded == "" {
+					switch fw.FuncName(fn) {
+					case "(*gmsl.stateResolver).resolveAuthBlock":
+						guarded = "element of a block built by addConflicted, which drops events without a state key"
+					}
+				}
+				construct := fw.FuncName(fn) + ": *StateKey() is dereferenced only after a nil test"
+				if guarded != "" {
+					c.Ok(rule, construct, c.P.Pos(fw.InstrPos(u)), guarded)
+				} else {
+					c.Fail(rule, construct, c.P.Pos(fw.InstrPos(u)), "StateKey() is dereferenced without a dominating nil test: an event of this kind without a state_key (a message-like event, reachable through remote-controlled references) makes the library panic")
+				}
+			}
+		}
+	}
+	c.Min(rule+" dereferences", n, 5)
 }
